@@ -87,6 +87,7 @@ type Event struct {
 	NDBs    int      `json:"ndbs"`    // databases managed by the Store
 	ExecFree bool    `json:"execFree"` // executor semaphore free (sampled only while no call is in flight)
 	ChkFree  bool    `json:"chkFree"`  // checkpoint lock free (same)
+	Bg       bool    `json:"bg"`       // a background application writer (AppHoldWrite) was in flight during this step
 	Pre     PreState `json:"pre"`
 }
 
@@ -119,6 +120,7 @@ type Runner struct {
 	gated   any // in-flight step-by-step checkpoint (gate.go)
 	seenRem map[string]bool
 	fc      *faultClient
+	holdDone  chan struct{}
 	appMu     sync.Mutex
 	freeLogMu sync.Mutex
 	freeLog   [][3]string // hooks reached after a Par block's schedule was exhausted (proc, event, open?)
@@ -157,6 +159,10 @@ func (r *Runner) openApp() error {
 }
 
 func (r *Runner) closeApp() {
+	if r.holdDone != nil {
+		<-r.holdDone
+		r.holdDone = nil
+	}
 	if r.reader != nil {
 		r.reader.ExecContext(r.ctx, "ROLLBACK")
 		r.reader.Close()
@@ -433,6 +439,40 @@ func (r *Runner) Step(st []any, noLS bool) (res string, ack bool) {
 			r.inTx = false
 		}
 		return errClass(err), false
+	case "AppHoldWrite": // a second application connection holds the write lock for n ms in the background (then commits a row)
+		if r.app == nil || r.holdDone != nil {
+			return "skip", false
+		}
+		c2, err := r.app.Conn(ctx)
+		if err != nil {
+			return errClass(err), false
+		}
+		if _, err := c2.ExecContext(ctx, "BEGIN IMMEDIATE"); err != nil {
+			c2.Close()
+			return errClass(err), false
+		}
+		if _, err := c2.ExecContext(ctx, "UPDATE t SET v = ? WHERE id = ?", r.payload(r.rowBytes()), 1); err != nil {
+			c2.ExecContext(ctx, "ROLLBACK")
+			c2.Close()
+			return errClass(err), false
+		}
+		done := make(chan struct{})
+		r.holdDone = done
+		ms := argInt(st, 1, 75)
+		go func() {
+			time.Sleep(time.Duration(ms) * time.Millisecond)
+			c2.ExecContext(context.Background(), "COMMIT")
+			c2.Close()
+			close(done)
+		}()
+		return "ok", false
+	case "AppJoin": // wait for the background writer
+		if r.holdDone == nil {
+			return "skip", false
+		}
+		<-r.holdDone
+		r.holdDone = nil
+		return "ok", false
 	case "AppCheckpoint":
 		if r.inTx {
 			return "skip", false
@@ -889,7 +929,9 @@ func RunCase(c Case, baseDir string, hooks func(r *Runner, ls *litestream.DB)) (
 			ev.Pre = ObservePre(r.dbPath, filepath.Join(r.metaLTXDir(), "0"), c.Cfg.PageSize, r.dict)
 			ev.Pre.ToEnd, _, _, _ = r.ls.VerifSyncState()
 		}
+		bg0 := r.holdDone != nil
 		ev.Res, ev.Ack = r.Step(st, false)
+		ev.Bg = bg0 || r.holdDone != nil
 		r.observe(&ev)
 		isRepl := strings.HasPrefix(ev.Op, "Ls") || ev.Op == "Compact" || ev.Op == "Snapshot" || strings.HasSuffix(ev.Op, "Retention") || strings.HasSuffix(ev.Op, "RetentionAbs") || ev.Op == "RetByTXID"
 		if ev.Ack || ev.Op == "RestoreCheck" || (c.Cfg.RestoreEach && isRepl && ev.Res != "skip" && len(ev.Remote) > 0) {
